@@ -1008,18 +1008,18 @@ def mismatch_recipes(draw, tier):
 
 
 SUBS = [
-    Sub(name="contractions", check=check_contract, strategy=contract_recipes, quick=2400, thorough=80000, shards=16,
+    Sub(name="contractions", check=check_contract, strategy=contract_recipes, quick=3200, thorough=60000, shards=16,
         rule="sum/prod/vdot(full+partial)/norm/integrate/mean/var/std/weight/total_volume/scalar_weight and the "
              "s_* variants against the volume-array oracle; non-trivial = >=2 spaces with a strict non-empty subset "
              "contracted, or a non-uniform volume among the contracted spaces, or complex/int dtype"),
-    Sub(name="pointwise", check=check_arith, strategy=arith_recipes, quick=1600, thorough=60000, shards=16,
+    Sub(name="pointwise", check=check_arith, strategy=arith_recipes, quick=2400, thorough=40000, shards=16,
         rule="binary + - * / // ** (field-field, field-scalar, scalar-field), comparisons, unary, clip and ptw "
              "functions equal NumPy on the raw arrays incl. result dtype; non-trivial = complex/int operand, "
              "mixed dtypes, or >=2 spaces"),
-    Sub(name="multifield", check=check_multi, strategy=multi_recipes, quick=800, thorough=30000, shards=16,
+    Sub(name="multifield", check=check_multi, strategy=multi_recipes, quick=1200, thorough=20000, shards=16,
         rule="MultiField arithmetic, comparisons, unary, clip, s_vdot/vdot, s_sum, norm (p-norm composition over "
              "keys) against NumPy per key / on the concatenation; non-trivial = >=2 keys"),
-    Sub(name="domain_mismatch", check=check_mismatch, strategy=mismatch_recipes, quick=600, thorough=20000, shards=8,
+    Sub(name="domain_mismatch", check=check_mismatch, strategy=mismatch_recipes, quick=800, thorough=10000, shards=8,
         rule="every binary operator, comparison, vdot/s_vdot and MultiField operation with operands on different "
              "domains raises ValueError (TypeError for the documented type rejections); non-trivial = the two "
              "domains have the same raw array shape, so plain NumPy would have accepted the operands"),
